@@ -122,7 +122,11 @@ impl Backend for Typescript {
                     ASN1Type::Any => self.generate_any(t),
                     ASN1Type::ElsewhereDeclaredType(_) => self.generate_typealias(t),
                     ASN1Type::Choice(_) => self.generate_choice(t),
-                    ASN1Type::Time(_) => unimplemented!("rasn does not support TIME types yet!"),
+                    ASN1Type::Time(_) => Err(GeneratorError {
+                        kind: GeneratorErrorType::NotYetInplemented,
+                        details: "TIME types are currently unsupported!".into(),
+                        top_level_declaration: Some(Box::new(ToplevelDefinition::Type(t))),
+                    }),
                     ASN1Type::Real(_) => self.generate_number_like(t),
                     ASN1Type::ObjectClassField(_) | ASN1Type::EmbeddedPdv | ASN1Type::External => {
                         self.generate_any(t)
